@@ -216,3 +216,23 @@ def join_scenario(seed, algo="priority"):
     for k in range(1, len(pipes)):
         arrivals[rng.randint(0, 6)].append(k)
     return {"layer": "S", "algo": algo, "cfg": cfg, "pipes": pipes, "steps": [], "arrivals": arrivals}
+
+
+def ram_gone_cpus_left_scenario(seed):
+    """priority on one pool of 64 CPUs and 250 GB: nine pipelines arrive together and get a tenth of the pool each (6 CPUs, 25 GB); the query among them needs
+    30 GB, is killed in its first tick and is retried with twice its allocation, which is exactly what is free: the pool is left with 4 CPUs and 0 GB.
+    A batch pipeline arriving in that very round must simply wait (no pool has free RAM) -- not be handed a 0-GB container"""
+    rng = random.Random(seed)
+    tps = rng.choice([1, 2, 4])
+    cfg = {"tps": tps, "multi": rng.random() < 0.5, "over": False, "npools": 1, "cpus": 64, "ram": "250"}
+    pipes = [{"prio": 1, "ops": [gen_e.simple_op(tps, rng.randint(2, 4), fixed=30)]}]
+    for _ in range(8):
+        pipes.append({"prio": rng.choice([2, 3]), "ops": [gen_e.simple_op(tps, rng.randint(12, 20), fixed=F(1, 64))]})
+    late = rng.randint(1, 3)
+    for _ in range(late):
+        pipes.append({"prio": 3, "ops": [gen_e.simple_op(tps, rng.randint(1, 3), fixed=F(1, 64))]})
+    nticks = 40
+    arrivals = [[] for _ in range(nticks)]
+    arrivals[0] = list(range(9))
+    arrivals[1] = [9 + k for k in range(late)]
+    return {"layer": "S", "algo": "priority", "cfg": cfg, "pipes": pipes, "steps": [], "arrivals": arrivals}
